@@ -1,6 +1,8 @@
 #include "problem.hh"
 
 #include <cmath>
+#include <cstdio>
+#include <cstdlib>
 #include <fstream>
 #include <functional>
 #include <map>
@@ -12,6 +14,7 @@
 #include "corecel/io/Logger.hh"
 #include "corecel/io/OutputRegistry.hh"
 #include "corecel/sys/ActionRegistry.hh"
+#include "corecel/Assert.hh"
 #include "celeritas/Quantities.hh"
 #include "celeritas/em/params/UrbanMscParams.hh"
 #include "celeritas/em/params/WentzelOKVIParams.hh"
@@ -798,7 +801,8 @@ draw_primaries(Problem const& prob, verif::Rng& r, int num_events, int first_eve
         std::vector<Primary> prims;
         int n = int(r.integer(1, max_per_event));
         // cluster primaries near a vertex half of the time
-        double vtx[3];
+        double vtx[3] = {0, 0, 0};
+        bool have_vtx = false;  // set once a primary of this event has been placed
         bool cluster = r.coin(0.5);
         for (int k = 0; k < n; ++k)
         {
@@ -823,7 +827,7 @@ draw_primaries(Problem const& prob, verif::Rng& r, int num_events, int first_eve
             for (int attempt = 0; attempt < 200 && !ok; ++attempt)
             {
                 double x[3];
-                if (cluster && k > 0)
+                if (cluster && have_vtx)
                 {
                     for (int i = 0; i < 3; ++i)
                         x[i] = vtx[i];
@@ -838,20 +842,37 @@ draw_primaries(Problem const& prob, verif::Rng& r, int num_events, int first_eve
                         x[i] = c + shrink * (r.uniform(lo[i], hi[i]) - c);
                     }
                 }
-                GeoTrackView g(geo.host_ref(), gstate.ref(), TrackSlotId{0});
-                g = GeoTrackInitializer{{x[0], x[1], x[2]}, {d[0], d[1], d[2]}};
-                if (g.failed() || g.is_outside())
+                int vol = -1;
+                double safety = 0;
+                try
+                {
+                    GeoTrackView g(geo.host_ref(), gstate.ref(), TrackSlotId{0});
+                    g = GeoTrackInitializer{{x[0], x[1], x[2]}, {d[0], d[1], d[2]}};
+                    if (g.failed() || g.is_outside())
+                        continue;
+                    vol = int(g.volume_id().get());
+                    if (prob.spec.volume_to_mat[vol] < 0)
+                        continue;
+                    safety = g.find_safety();
+                }
+                catch (celeritas::DebugError const&)
+                {
+                    // library debug assertion while placing a candidate vertex (debug variant
+                    // only, e.g. the safety on a cylinder axis): not a verdict of any transport
+                    // property (C11's), take another candidate
+                    if (std::getenv("VERIF_DEBUG"))
+                        std::fprintf(stderr, "draw_primaries: debug assertion at (%a, %a, %a)\n", x[0], x[1], x[2]);
                     continue;
-                int vol = int(g.volume_id().get());
-                if (prob.spec.volume_to_mat[vol] < 0)
-                    continue;
-                double safety = g.find_safety();
+                }
                 if (!(safety > 1e-6 * scale))
                     continue;
                 p.position = {x[0], x[1], x[2]};
-                if (k == 0)
+                if (!have_vtx)
+                {
                     for (int i = 0; i < 3; ++i)
                         vtx[i] = x[i];
+                    have_vtx = true;
+                }
                 ok = true;
             }
             if (ok)
